@@ -1124,3 +1124,294 @@ Proof. destruct st as [[absent s] bs]. destruct ost as [[[oa op] orr] spec]. int
     eapply Permutation_NoDup; [apply Permutation_map; apply Permutation_sym; exact Hp_new|]. cbn [map]. rewrite Ss.
     change (slot_session sl :: map slot_session (absent ++ rf)) with (map slot_session (sl :: absent ++ rf)).
     eapply Permutation_NoDup; [apply Permutation_map; exact Hp_old|assumption]. Qed.
+
+(* ---- block_poll over all images ---- *)
+Lemma avail_pos : forall es, frames_pos (avail es).
+Proof. induction es as [|e r IH]; [constructor|]. destruct e; cbn [avail]; try constructor.
+  destruct (f_len f <=? 0) eqn:E; constructor; [lia|exact IH]. Qed.
+
+Lemma scan_ge start limit : forall fs off, frames_pos fs -> off <= scan_loop start limit fs off.
+Proof. induction fs as [|f r IH]; intros off Hp; rewrite scan_loop_eq.
+  - destruct (off <? limit); lia.
+  - apply frames_pos_inv in Hp as [Hf Hr]. pose proof (span_bounds f Hf).
+    destruct (off <? limit); [|lia]. destruct (is_pad f); [destruct (start =? off); lia|].
+    destruct (off + span f >? limit); [lia|]. specialize (IH (off + span f) Hr). lia. Qed.
+
+Definition blk_obs (b : Z * Z * Z * Z) : fobs := let '(se, o, n, tid) := b in (o, n, -1, Ok tid, se, 0).
+
+Lemma slot_rel_refl sl : slot_ok sl -> im_closed (slot_image sl) = false -> slot_rel sl sl.
+Proof. intros H1 H2. destruct sl as [[[[[? ?] ?] ?] ?] ?]. unfold slot_rel.
+  split; [exact H1|]. split; [exact H2|]. repeat split. Qed.
+
+Lemma span_sum_zero fs k : frames_pos fs -> span_sum (firstn k fs) = 0 -> k = 0%nat \/ fs = [].
+Proof. intros Hp H. destruct k; [left; reflexivity|]. destruct fs as [|f r]; [right; reflexivity|].
+  apply frames_pos_inv in Hp as [Hf Hr]. cbn [firstn span_sum] in H. pose proof (span_bounds f Hf).
+  pose proof (span_sum_nonneg _ (frames_pos_firstn k r Hr)). lia. Qed.
+
+Lemma block_facts m bl sl : slot_ok sl -> im_closed (slot_image sl) = false -> in_i32 bl = true ->
+  let o := oslot_of sl in
+  let '(n, sl', blocks) := bk_block m bl sl in
+  slot_rel sl sl' /\ (forall b, In b blocks -> fo_session (blk_obs b) = slot_session sl) /\
+  n = im_pos (slot_image sl') - im_pos (slot_image sl) /\
+  (os_wf o = true -> (let '(_, bits, _, _, _, pos, _) := o in block_excluded bits pos bl) = false ->
+     judge_block (os_session o) bl (os_pos o) (os_off o) (os_frames o)
+       (Ok n, map blk_obs blocks, synth_ws (os_pos o) (im_pos (slot_image sl')), im_pos (slot_image sl')) = true).
+Proof. intros Hok Hopen Hbl. cbv zeta. destruct sl as [[[[[id bits] init] se] sg] im].
+  cbn [slot_image slot_log slot_session oslot_of os_session os_pos os_off os_frames] in *.
+  destruct Hok as (Hb & Hse & Hsg).
+  (* when the property speaks, use the exact description of the call *)
+  destruct (os_wf (id, bits, init, se, sg, im_pos im, im_closed im)) eqn:Ew.
+  - pose proof (os_wf_ctx id bits init se sg im Ew) as Hc.
+    destruct (in_i32 (im_pos im mod 2 ^ bits + bl)) eqn:Ei.
+    + destruct (block_run m bits init _ im _ bl Hc Hopen Ei) as (k & ds & ws & im' & Hk & Hbadm & E & Hp & Hpos & Hzero).
+      unfold bk_block. cbn [slot_log slot_image]. rewrite E. cbn [slot_with slot_image].
+      pose proof (block_static _ _ _ _ _ E) as (S1 & S2 & S3).
+      set (fs := frames_at bits [sg] (im_pos im)) in *. set (len := span_sum (consumed fs k)) in *.
+      pose proof (fs_pos _ _ _ _ _ Hc) as Hfp.
+      pose proof (span_sum_nonneg _ (frames_pos_firstn k fs Hfp)) as Hlen0. change (firstn k fs) with (consumed fs k) in Hlen0. fold len in Hlen0.
+      split; [|split; [|split]].
+      * unfold slot_rel. cbn [slot_ok slot_image slot_log slot_session slot_id oslot_of os_with_pos].
+        split; [repeat split; auto; congruence|]. split; [congruence|]. repeat split; try reflexivity. rewrite S1. reflexivity.
+      * intros b Hb'. apply in_map_iff in Hb' as (d & <- & _). cbn [blk_obs fo_session]. exact Hse.
+      * lia.
+      * intros _ _. unfold judge_block. apply (any_upto_intro _ _ k Hk). unfold judge_block_run. fold len.
+        rewrite out_eqb_refl_ok, Hbadm. cbn [andb].
+        assert (Hw : writes_ok (im_pos im) (im_pos im + len) [] (synth_ws (im_pos im) (im_pos im')) (im_pos im') = true).
+        { unfold writes_ok, synth_ws. rewrite Hp. destruct (im_pos im + len =? im_pos im) eqn:Ez; cbn [nondecr last forallb].
+          - assert (im_pos im =? im_pos im + len = true) by lia. rewrite H, Z.eqb_refl. reflexivity.
+          - assert (im_pos im <=? im_pos im + len = true) by lia. rewrite H, !Z.eqb_refl. reflexivity. }
+        rewrite Hw, andb_true_r.
+        destruct (Z_lt_le_dec 0 len) as [Hl|Hl].
+        -- destruct (Hpos Hl) as (f & Hf0 & Hds1 & _). rewrite Hds1. destruct fs as [|f0 r]; [discriminate|]. cbn [nth_error] in Hf0. inversion Hf0; subst f0.
+           destruct k as [|k']; [unfold len, consumed in Hl; cbn [firstn span_sum] in Hl; lia|].
+           cbn [map blk_obs list_eqb fst snd]. unfold fobs_eqb. rewrite !Z.eqb_refl, out_eqb_refl_ok, Hse, Z.eqb_refl. reflexivity.
+        -- assert (Hl0 : len = 0) by lia. destruct (Hzero Hl0) as (Hds0 & _). rewrite Hds0. cbn [map].
+           destruct (span_sum_zero fs k Hfp Hl0) as [Hk0|Hfs0]; [rewrite Hk0; reflexivity|rewrite Hfs0; destruct k; reflexivity].
+    + (* excluded: nothing to judge; the call panics (debug) or does nothing (release) *)
+      pose proof (block_poll_judged m _ bits init im _ bl Hc Hopen Hbl) as Hj. cbv zeta in Hj. rewrite Ei in Hj.
+      unfold bk_block. cbn [slot_log slot_image]. destruct m; rewrite Hj.
+      * split; [apply slot_rel_refl; [repeat split; auto|assumption]|]. split; [intros b []|]. split; [cbn; lia|].
+        intros _ He. unfold block_excluded in He. rewrite Ei in He. discriminate.
+      * split; [apply slot_rel_refl; [repeat split; auto|assumption]|]. split; [intros b []|]. split; [cbn; lia|].
+        intros _ He. unfold block_excluded in He. rewrite Ei in He. discriminate.
+  - (* nothing to judge: only the shape of the result matters *)
+    unfold bk_block, image_block_poll. cbn [slot_log slot_image]. rewrite Hopen.
+    set (l := mk_log bits init se [sg]).
+    assert (Hidle : slot_rel (id, bits, init, se, sg, im) (id, bits, init, se, sg, im)) by (apply slot_rel_refl; [repeat split; auto|assumption]).
+    destruct (sel l (im_pos im)) as [[fs off]| | | |] eqn:Es; cbn [bind];
+      try (split; [exact Hidle|]; split; [intros b []|]; split; [cbn; lia|intros; discriminate]).
+    destruct (add32 m off bl) as [s0| | | |]; cbn [bind];
+      try (split; [exact Hidle|]; split; [intros b []|]; split; [cbn; lia|intros; discriminate]).
+    assert (Hfp : frames_pos fs).
+    { unfold sel in Es. destruct ((0 <=? index_by_position (im_pos im) (bits_of (l_tlen l))) && (index_by_position (im_pos im) (bits_of (l_tlen l)) <? PARTITION_COUNT));
+        [|discriminate]. inversion Es. apply avail_pos. }
+    pose proof (scan_ge off (Z.min s0 (l_tlen l)) fs off Hfp) as Hge. unfold term_scan.
+    destruct (scan_loop off (Z.min s0 (l_tlen l)) fs off >? off) eqn:Eg.
+    + cbn [slot_with slot_image after_writes set_pos last im_pos].
+      split; [unfold slot_rel; cbn [slot_ok slot_image slot_log slot_session slot_id oslot_of os_with_pos im_session im_closed im_pos];
+              repeat split; auto|].
+      split; [intros b Hb'; apply in_map_iff in Hb' as (d & <- & _); cbn [blk_obs fo_session]; exact Hse|].
+      split; [lia|intros; discriminate].
+    + split; [exact Hidle|]. split; [intros b []|]. split; [cbn [slot_image slot_with]; lia|intros; discriminate]. Qed.
+
+Definition jb_of (bl : Z) (sl : oslot) (_ : Z) (share : list fobs) (p' : Z) : bool :=
+  if os_wf sl then
+    let '(_, bits, _, _, _, pos, _) := sl in
+    let ob1 := (Ok (p' - pos), share, synth_ws pos p', p') in
+    if block_excluded bits pos bl then true
+    else judge_block (os_session sl) bl pos (os_off sl) (os_frames sl) ob1
+  else true.
+
+Lemma block_pass m bl ps : in_i32 bl = true -> forall imgs read,
+  Forall slot_ok imgs -> Forall (fun sl => im_closed (slot_image sl) = false) imgs -> NoDup (map slot_session imgs) ->
+  let '(total, imgs', blocks) := block_all (bk_block m bl) imgs in
+  Forall2 slot_rel imgs imgs' /\
+  (forall b, In b blocks -> exists sl, In sl imgs /\ fo_session (blk_obs b) = slot_session sl) /\
+  ((forall sl', In sl' imgs' -> pos_at ps (slot_id sl') = im_pos (slot_image sl')) ->
+   fst (judge_shares (jb_of bl) (fun _ => 0) (map oslot_of imgs) (map blk_obs blocks) 0 read ps) = true /\
+   total = fold_right Z.add 0 (map (fun sl => pos_at ps (os_id sl) - os_pos sl) (map oslot_of imgs))).
+Proof. intros Hbl. induction imgs as [|sl r IH]; intros read Hok Hop Hnd; cbn [block_all].
+  - split; [constructor|]. split; [intros b []|]. intros _. split; reflexivity.
+  - inversion Hok as [|? ? Hok1 Hokr]; subst. inversion Hop as [|? ? Hop1 Hopr]; subst.
+    cbn [map] in Hnd. inversion Hnd as [|? ? Hni Hndr]; subst.
+    pose proof (block_facts m bl sl Hok1 Hop1 Hbl) as Hf. cbv zeta in Hf.
+    destruct (bk_block m bl sl) as [[n sl1] bs1]. destruct Hf as (F1 & F2 & F3 & F4).
+    specialize (IH (read + 0) Hokr Hopr Hndr). destruct (block_all (bk_block m bl) r) as [[total r1] bs2].
+    destruct IH as (I1 & I2 & I3).
+    split; [constructor; assumption|]. split.
+    { intros b Hb'. apply in_app_or in Hb' as [Hb'|Hb'].
+      - exists sl. split; [left; reflexivity|apply F2; assumption].
+      - destruct (I2 b Hb') as (s2 & Hs2 & E). exists s2. split; [right; assumption|assumption]. }
+    intros Hps. destruct (I3 (fun x Hx => Hps x (or_intror Hx))) as [I3a I3b].
+    assert (Hid : os_id (oslot_of sl) = slot_id sl) by (destruct sl as [[[[[? ?] ?] ?] ?] ?]; reflexivity).
+    assert (Hse : os_session (oslot_of sl) = slot_session sl) by (destruct sl as [[[[[? ?] ?] ?] ?] ?]; reflexivity).
+    assert (Hpo : os_pos (oslot_of sl) = im_pos (slot_image sl)) by (destruct sl as [[[[[? ?] ?] ?] ?] ?]; reflexivity).
+    destruct F1 as (_ & _ & _ & _ & Fid & _).
+    assert (Hp1 : pos_at ps (slot_id sl) = im_pos (slot_image sl1)) by (rewrite <- Fid; apply Hps; left; reflexivity).
+    split.
+    + cbn [map judge_shares]. rewrite map_app, Hse, take_session_app.
+      * rewrite Hid, Hp1.
+        destruct (judge_shares (jb_of bl) (fun _ => 0) (map oslot_of r) (map blk_obs bs2) 0 (read + 0) ps) as [okr tot] eqn:Ej.
+        cbn [fst] in *. rewrite I3a, andb_true_r.
+        unfold jb_of. destruct (os_wf (oslot_of sl)) eqn:Ew; [|reflexivity].
+        destruct sl as [[[[[id bits] init] se] sg] im]. cbn [oslot_of] in *.
+        destruct (block_excluded bits (im_pos im) bl) eqn:Ex; [reflexivity|].
+        cbn [os_session os_pos os_off os_frames slot_image] in *. rewrite <- F3. apply F4; [reflexivity|first [exact Ex|reflexivity]].
+      * intros x Hx. apply in_map_iff in Hx as (b & <- & Hb'). apply F2. assumption.
+      * destruct (map blk_obs bs2) as [|x rest] eqn:Em; [exact I|].
+        assert (Hx : In x (map blk_obs bs2)) by (rewrite Em; left; reflexivity). apply in_map_iff in Hx as (b & <- & Hb').
+        destruct (I2 b Hb') as (s2 & Hs2 & E). rewrite E. intros Heq. apply Hni. rewrite <- Heq. apply in_map. assumption.
+    + cbn [map fold_right]. rewrite Hid, Hpo, Hp1, <- I3b. lia. Qed.
+
+Lemma st_inv_rel nslots absent imgs rr bs imgs' rr' bs' :
+  st_inv nslots (absent, mkSub imgs rr, bs) -> Forall2 slot_rel imgs imgs' -> 0 <= rr' ->
+  st_inv nslots (absent, mkSub imgs' rr', bs') /\ map slot_session imgs' = map slot_session imgs /\
+  Forall2 (fun sl sl' => slot_id sl' = slot_id sl /\ oslot_of sl' = os_with_pos (oslot_of sl) (im_pos (slot_image sl'))) imgs imgs'.
+Proof. intros (Hok & Hopen & Hids & Hrange & Hrr) Hrel Hr'. cbn [s_images s_rr] in *.
+  assert (Hid_eq : map slot_id imgs' = map slot_id imgs)
+    by (apply (Forall2_map_eq slot_id slot_rel); [intros a a' (_ & _ & _ & _ & H & _); exact H|exact Hrel]).
+  assert (Hse_eq : map slot_session imgs' = map slot_session imgs)
+    by (apply (Forall2_map_eq slot_session slot_rel); [intros a a' (_ & _ & _ & H & _); exact H|exact Hrel]).
+  split; [|split; [exact Hse_eq|]].
+  - unfold st_inv. cbn [s_images s_rr]. rewrite Forall_app in Hok, Hrange. destruct Hok as [Hoka Hokp]. destruct Hrange as [Hra Hrp].
+    split; [apply Forall_app; split; [assumption|]|].
+    { clear -Hrel. induction Hrel as [|a b l l' (H & _) _ IH]; constructor; assumption. }
+    split. { clear -Hrel. induction Hrel as [|a b l l' (_ & H & _) _ IH]; constructor; assumption. }
+    split. { rewrite map_app, Hid_eq, <- map_app. assumption. }
+    split; [|assumption]. apply Forall_app. split; [assumption|].
+    clear -Hrel Hrp. induction Hrel as [|a b l l' (_ & _ & _ & _ & H & _) _ IH]; [constructor|].
+    inversion Hrp; subst. constructor; [rewrite H; assumption|apply IH; assumption].
+  - clear -Hrel. induction Hrel as [|a b l l' (_ & _ & _ & _ & H1 & H2) _ IH]; constructor; [split; assumption|assumption]. Qed.
+
+Theorem sblock_step m nslots ost st bl : in_i32 bl = true ->
+  st_rel ost st -> st_inv nslots st -> sessions_distinct st ->
+  let '(ob, st') := sstep m nslots st (SBlock bl) in
+  judge_sop ost (SBlock bl) ob = true /\ st_rel (onext20 ost (SBlock bl) ob) st' /\ st_inv nslots st' /\ sessions_distinct st'.
+Proof. intros Hbl. destruct st as [[absent s] bs]. destruct ost as [[[oa op] orr] spec]. intros (-> & -> & -> & Hspec) Hinv Hnd.
+  unfold sessions_distinct in Hnd. cbn [sstep]. destruct s as [imgs rr]. cbn [s_images s_rr] in *.
+  pose proof Hinv as (H1 & H2 & H3 & H4 & H5). cbn [s_images s_rr] in *.
+  assert (Hokp : Forall slot_ok imgs) by (rewrite Forall_app in H1; apply H1).
+  assert (Hnd_imgs : NoDup (map slot_session imgs)) by (rewrite map_app in Hnd; apply nodup_app_r in Hnd; assumption).
+  set (ps0 := fun imgs' => positions nslots 0 (absent ++ imgs')).
+  pose proof (fun ps => block_pass m bl ps Hbl imgs 0 Hokp H2 Hnd_imgs) as Hbp.
+  destruct (block_all (bk_block m bl) imgs) as [[total imgs'] blocks]. cbn [all_slots s_images].
+  set (ps := positions nslots 0 (absent ++ imgs')).
+  destruct (Hbp ps) as (B1 & B2 & B3).
+  destruct (st_inv_rel nslots absent imgs rr bs imgs' rr bs Hinv B1 H5) as (Hinv' & Hse_eq & Hrel2).
+  assert (Hps_all : forall sl, In sl (absent ++ imgs') -> pos_at ps (slot_id sl) = im_pos (slot_image sl))
+    by (apply (st_inv_positions nslots absent (mkSub imgs' rr) bs Hinv')).
+  destruct (B3 (fun x Hx => Hps_all x (in_or_app _ _ _ (or_intror Hx)))) as [B3a B3b].
+  split; [|split; [|split]].
+  - cbn [judge_sop]. rewrite (sessions_ok_true absent imgs Hnd). cbn [negb].
+    rewrite (unmoved_same ps absent) by (intros; apply Hps_all; apply in_or_app; left; assumption). cbn [andb].
+    change (fun b : Z * Z * Z * Z => let '(se, o, n, tid) := b in (o, n, -1, Ok tid, se, 0)) with blk_obs.
+    match goal with |- context [judge_shares ?f _ _ _ _ _ _] => change f with (jb_of bl) end.
+    match goal with |- context [match ?X with pair _ _ => _ end] =>
+      change X with (judge_shares (jb_of bl) (fun _ => 0) (map oslot_of imgs) (map blk_obs blocks) 0 0 ps) end.
+    set (js := judge_shares (jb_of bl) (fun _ => 0) (map oslot_of imgs) (map blk_obs blocks) 0 0 ps) in *.
+    destruct js as [ok tot]. cbn [fst] in B3a. subst ok. rewrite <- B3b. cbv beta iota. cbn [out_eqb andb]. rewrite Z.eqb_refl. reflexivity.
+  - unfold st_rel, onext20. cbn [s_images s_rr].
+    rewrite (update_positions_same ps absent) by (intros; apply Hps_all; apply in_or_app; left; assumption).
+    rewrite (update_positions_rel ps imgs imgs' Hrel2) by (intros; apply Hps_all; apply in_or_app; right; assumption).
+    repeat split; auto.
+  - exact Hinv'.
+  - unfold sessions_distinct. cbn [s_images]. rewrite map_app, Hse_eq, <- map_app. exact Hnd. Qed.
+
+(* ---- any operation, any history ---- *)
+Definition sop_ok (o : sop) : Prop := match o with SBlock bl => in_i32 bl = true | _ => True end.
+
+Theorem sstep_judged m nslots ost st o : sop_ok o ->
+  st_rel ost st -> st_inv nslots st -> sessions_distinct st ->
+  let '(ob, st') := sstep m nslots st o in
+  judge_sop ost o ob = true /\ st_rel (onext20 ost o ob) st' /\ st_inv nslots st' /\ sessions_distinct st'.
+Proof. intros Ho. destruct o.
+  - apply spoll_step.
+  - apply scpoll_step.
+  - apply sblock_step. exact Ho.
+  - apply sgrow_step.
+  - apply sadd_step.
+  - apply sremove_step. Qed.
+
+Theorem srun_judged m nslots : forall ops ost st, Forall sop_ok ops ->
+  st_rel ost st -> st_inv nslots st -> sessions_distinct st ->
+  judge_all20 ost ops (srun m nslots st ops) = true.
+Proof. induction ops as [|o r IH]; intros ost st Hok Hrel Hinv Hnd; [reflexivity|].
+  inversion Hok as [|? ? Ho Hr]; subst. cbn [srun].
+  pose proof (sstep_judged m nslots ost st o Ho Hrel Hinv Hnd) as Hs.
+  destruct (sstep m nslots st o) as [ob st']. destruct Hs as (Hj & Hrel' & Hinv' & Hnd').
+  cbn [judge_all20]. rewrite Hj. cbn [andb]. apply IH; assumption. Qed.
+
+(* ---- the initial state of a case ---- *)
+Definition sslot_ok (x : sslot) : Prop :=
+  let '(bits, init, se, pos0, sg) := x in
+  let '(n, off, vis, claim, ss) := sg in
+  0 <= bits /\ 0 <= off /\ Forall (fun s => let '(typ, flags, flen, k, dtid) := s in 1 <= flen) ss.
+Definition sslot_session (x : sslot) : Z := let '(_, _, se, _, _) := x in se.
+
+Lemma mk_frames_ok init se n : forall ss off,
+  Forall (fun s : fspec => let '(typ, flags, flen, k, dtid) := s in 1 <= flen) ss ->
+  frames_pos (mk_frames init se n off ss) /\ Forall (fun f => f_session f = se) (mk_frames init se n off ss).
+Proof. induction ss as [|[[[[typ flags] flen] k] dtid] r IH]; intros off H; [split; constructor|].
+  inversion H; subst. cbn [mk_frames]. destruct (IH (off + span (mk_frame init se n off (typ, flags, flen, k, dtid))) H3) as [A B].
+  split; constructor; auto. Qed.
+
+Lemma build_slots_facts : forall ss id0, Forall sslot_ok ss ->
+  Forall slot_ok (build_slots id0 ss) /\
+  Forall (fun sl => im_closed (slot_image sl) = false) (build_slots id0 ss) /\
+  map slot_id (build_slots id0 ss) = zseq id0 (length ss) /\
+  map slot_session (build_slots id0 ss) = map sslot_session ss /\
+  build_oslots id0 ss = map oslot_of (build_slots id0 ss).
+Proof. induction ss as [|[[[[bits init] se] pos0] sg] r IH]; intros id0 H; [repeat split; constructor|].
+  inversion H as [|? ? Hx Hr]; subst. destruct (IH (id0 + 1) Hr) as (A & B & C & D & E).
+  cbn [build_slots build_oslots map length zseq]. rewrite C, D, E.
+  split; [|repeat split; try constructor; auto].
+  constructor; [|assumption]. destruct sg as [[[[n off] vis] claim] ss]. destruct Hx as (Hb & Hoff & Hfl).
+  cbn [slot_ok build_seg]. split; [assumption|]. split; [reflexivity|].
+  destruct (mk_frames_ok init se n ss off Hfl) as [P Q]. repeat split; assumption. Qed.
+
+Lemma zseq_nodup : forall c from, NoDup (zseq from c) /\ (forall x, In x (zseq from c) -> from <= x < from + Z.of_nat c).
+Proof. induction c; intros from; cbn [zseq]; [split; [constructor|intros x []]|].
+  destruct (IHc (from + 1)) as [A B]. split.
+  - constructor; [|assumption]. intros Hin. apply B in Hin. lia.
+  - intros x [->|Hx]; [lia|]. apply B in Hx. lia. Qed.
+
+(* adding the initial images keeps the relation; all images are still open *)
+Lemma add_initial_rel nslots : forall ids oa op absent imgs,
+  oa = map oslot_of absent -> op = map oslot_of imgs ->
+  st_inv nslots (absent, mkSub imgs 0, []) -> Forall (fun sl => im_closed (slot_image sl) = false) (absent ++ imgs) ->
+  NoDup (map slot_session (absent ++ imgs)) ->
+  let '(oa', op') := oadd_initial oa op ids in
+  let st' := add_initial (absent, mkSub imgs 0, []) ids in
+  st_rel (oa', op', 0, []) st' /\ st_inv nslots st' /\ sessions_distinct st'.
+Proof. induction ids as [|id r IH]; intros oa op absent imgs -> -> Hinv Hopen Hnd; cbn [oadd_initial add_initial].
+  - split; [repeat split; auto|]. split; [exact Hinv|exact Hnd].
+  - rewrite find_os_map. destruct (find_slot id absent) as [sl|] eqn:Ef; cbn [option_map].
+    2:{ apply IH; auto. }
+    rewrite remove_first_map. unfold add_image. cbn [s_images s_rr].
+    replace (map oslot_of imgs ++ [oslot_of sl]) with (map oslot_of (imgs ++ [sl])) by (rewrite map_app; reflexivity).
+    set (rf := remove_first (fun x => slot_id x =? id) absent).
+    assert (Hperm : Permutation (absent ++ imgs) (rf ++ (imgs ++ [sl]))).
+    { eapply perm_trans; [apply Permutation_app_tail; apply (remove_first_perm id absent sl Ef)|]. fold rf. cbn [app].
+      eapply perm_trans; [apply Permutation_cons_append|]. rewrite <- app_assoc. apply Permutation_refl. }
+    assert (Hopen' : Forall (fun x => im_closed (slot_image x) = false) (rf ++ (imgs ++ [sl]))) by (eapply Permutation_Forall; eassumption).
+    apply IH; auto.
+    + apply (st_inv_perm nslots absent imgs 0 [] rf (imgs ++ [sl]) 0 []); [assumption|assumption| |lia].
+      rewrite Forall_app in Hopen'. apply Hopen'.
+    + eapply sessions_perm; eassumption. Qed.
+
+Definition case_ok (slots : list sslot) (ops : list sop) : Prop :=
+  Forall sslot_ok slots /\ NoDup (map sslot_session slots) /\ Forall sop_ok ops.
+
+(* the oracle accepts every history of the model, for every case whose sessions are distinct *)
+Theorem sub_case_judged m slots initial ops : case_ok slots ops ->
+  holds_sub_case slots initial ops (run_sub_case m slots initial ops) = true.
+Proof. intros (Hs & Hnd & Hops). unfold holds_sub_case, run_sub_case.
+  destruct (build_slots_facts slots 0 Hs) as (A & B & C & D & E).
+  assert (Hinv0 : st_inv (length slots) (build_slots 0 slots, mkSub [] 0, [])).
+  { unfold st_inv. cbn [s_images s_rr]. rewrite app_nil_r. destruct (zseq_nodup (length slots) 0) as [N R].
+    split; [assumption|]. split; [constructor|]. split; [rewrite C; assumption|]. split; [|lia].
+    apply Forall_forall. intros sl Hsl. apply R. rewrite <- C. apply in_map. assumption. }
+  pose proof (add_initial_rel (length slots) initial (build_oslots 0 slots) [] (build_slots 0 slots) [] E eq_refl Hinv0) as Hi.
+  rewrite app_nil_r in Hi. specialize (Hi B). rewrite D in Hi. specialize (Hi Hnd).
+  destruct (oadd_initial (build_oslots 0 slots) [] initial) as [oa' op']. cbv zeta in Hi. destruct Hi as (R1 & R2 & R3).
+  apply srun_judged; assumption. Qed.
